@@ -388,6 +388,18 @@ pub fn main_with(
             };
             gen(&id, &tier, &mut rng, &mut emit);
         }
+        Some("ops") => {
+            // the op stream only, nothing executed: the caller runs it through `run`, where a
+            // process that dies or never returns costs one op, not the whole stream
+            let id = args.get(2).expect("ops <ID> <tier> <seed>").clone();
+            let tier = args.get(3).cloned().unwrap_or("quick".into());
+            let seed: u64 = args.get(4).and_then(|s| s.parse().ok()).unwrap_or(1);
+            let mut rng = Rng::new(seed);
+            let mut emit = |op: Op| {
+                writeln!(out, "{}", op.line()).unwrap();
+            };
+            gen(&id, &tier, &mut rng, &mut emit);
+        }
         Some("run") => {
             let stdin = std::io::stdin();
             for line in stdin.lock().lines() {
